@@ -359,7 +359,10 @@ func (vm *VM) fmtValue(verb byte, v Value) Value {
 }
 
 // Opaque is a string whose contents the engine does not know; any inspection is inconclusive.
-type Opaque struct{ What string }
+type Opaque struct {
+	What string
+	Blob *JSONBlob // set when the string is the JSON text of a value (value-carrying stub)
+}
 
 func (vm *VM) sprintf(format Value, args []Value) Value {
 	f, ok := format.(string)
